@@ -864,27 +864,38 @@ def _c09_core(float_range, ints=True, version=True):
             elif isinstance(val, E.SFloat) and spec == ".16g":
                 # positional iff 1e-4 <= |v| < 1e16 (format contract); must print v itself
                 goal = z3.Or(z3.Not(z3.fpEQ(val.t, x)), z3.fpLT(z3.fpAbs(x), E.fpv(1e-4)), z3.fpGEQ(z3.fpAbs(x), E.fpv(1e16)))
+                if any(p_[0] == "rstrip" and p_[1] and "0" in p_[1] for p_ in text.post):
+                    tl = z3.fpToSBV(RTZ, z3.fpAbs(x), E.BV64)
+                    goal = z3.Or(goal, z3.And(z3.fpGEQ(z3.fpAbs(x), E.fpv(1e15)), z3.URem(tl, z3.BitVecVal(10, 64)) == 0,
+                                              z3.fpLT(z3.fpSub(RNE, z3.fpAbs(x), z3.fpRoundToIntegral(RTZ, z3.fpAbs(x))), E.fpv(0.5))))
             else:
                 goal = z3.BoolVal(True)
         elif isinstance(text, str) and "\x00FMT[" in text:
-            mt = _re.search(r"\x00FMT\[\.(\d+)f\]\x00", text)
-            decades += 1
+            mt = _re.search(r"\x00FMT\[\.(\d+)([fg])\]\x00(.*)$", text, _re.S)
             if not mt:
                 goal = z3.BoolVal(True)
-            else:
+            elif mt.group(2) == "f":
+                decades += 1
                 nd = int(mt.group(1))
                 # decade k of |v| is fixed on this path: find it from the log10 variable constraints
                 k = None
                 for a_ in asserts:
-                    s_ = str(a_)
-                    mk = _re.search(r"log10_(-?\d+)", s_)
+                    mk = _re.search(r"log10_(-?\d+)", str(a_))
                     if mk:
                         k = int(mk.group(1))
                         break
-                if k is None:
-                    goal = z3.BoolVal(True)
-                else:
-                    goal = z3.BoolVal(nd < 15 - k)  # fewer than 16 significant digits
+                goal = z3.BoolVal(True) if k is None else z3.BoolVal(nd < 15 - k)  # fewer than 16 significant digits
+            else:
+                # '.Ng' through str.format: positional iff 1e-4 <= |v| < 1e16 (needs N == 16 here)
+                goal = z3.Or(z3.BoolVal(int(mt.group(1)) < 16), z3.fpLT(z3.fpAbs(x), E.fpv(1e-4)), z3.fpGEQ(z3.fpAbs(x), E.fpv(1e16)))
+                if not mt.group(3).startswith("0.0"):
+                    # trailing zeros are stripped from a text that has no decimal point when the
+                    # 16-digit rounding of v is an integer: witnesses are non-integral v >= 1e15
+                    # whose integer part ends in 0
+                    tl = z3.fpToSBV(RTZ, z3.fpAbs(x), E.BV64)
+                    strip_zero = z3.And(z3.fpGEQ(z3.fpAbs(x), E.fpv(1e15)), z3.URem(tl, z3.BitVecVal(10, 64)) == 0,
+                                        z3.fpLT(z3.fpSub(RNE, z3.fpAbs(x), z3.fpRoundToIntegral(RTZ, z3.fpAbs(x))), E.fpv(0.5)))
+                    goal = z3.Or(goal, strip_zero)
         elif isinstance(text, str):
             # a constant spelling for a symbolic number: only "0" for zero is acceptable
             goal = z3.Not(z3.fpIsZero(x)) if text == "0" else z3.BoolVal(True)
